@@ -453,6 +453,9 @@ func ruleC07Deleg(e *Env) {
 			switch {
 			case err != nil:
 				e.S.Unk(rule, site, "Scan(time.Time)", err.Error(), e.Pos(scan))
+			case got.String() == "nil" && len(log) == 0 && recv.V != nil && recv.V.String() == "FromTime(t)":
+				// the package-level conversion assigned to the receiver: the same date as the method writes
+				e.S.Ok(rule, site, "Scan(time.Time)", "sets the receiver to FromTime(t), returns nil", e.Pos(scan))
 			case got.String() != "nil" || len(log) != 1 || log[0] != "(*Date).FromTime(&recv[],t)":
 				e.S.Bad(rule, site, "Scan(time.Time)", fmt.Sprintf("for a time.Time source Scan returns %v after %v; documented: set the receiver from that time and return nil", got, log), e.Pos(scan), "")
 			default:
